@@ -30,7 +30,7 @@ CHECKS = {
         pkg="wire",
         level="exploration",
         groups=[
-            G("^TestC01_Msg$", 300, 5000),
+            G("^TestC01_Msg$", 300, 3000),
             G("^TestC01_Dir$", 1000, 10000),
         ],
         fuzz=[("FuzzDecodeVsRef", 60)],
@@ -88,7 +88,7 @@ CHECKS = {
     "C08": dict(
         pkg="sessfs",
         level="exploration",
-        groups=[G("^TestC08_Session$", 1500, 15000)],
+        groups=[G("^TestC08_Session$", 1500, 100000)],
         rule="sequential histories of 1..40 (thorough 80) session operations (attach/walk/open/create/read/write/stat/wstat/clunk/remove) on p9p.SFileSys over an "
              "instrumented mock file system; fids from a 5-value pool plus NOFID and a never-bound value; name lists incl. '..', missing, non-normal; ~8% of operations "
              "have a file-system failure or a partial walk injected. After every step the result and (via the verif hook) the real fid table are compared with a "
@@ -102,7 +102,7 @@ CHECKS = {
     "C13": dict(
         pkg="sessfs",
         level="fault_enumeration",
-        groups=[G("^TestC13_Release$", 1500, 15000)],
+        groups=[G("^TestC13_Release$", 1500, 100000)],
         rule="same state machine as C08 with heavy fault injection (25% of operations make the mock's attach/walk/open/opendir/create/read/write/stat/wstat/clunk/remove call fail, "
              "or cut a walk short) and Session.Stop at a generated step (25%) or at the end. Oracle: per mock handle release counter and use-after-release flag; after every step no bound fid "
              "points at a released handle; after Stop no fid is bound and every handle that was ever bound has exactly one release. Non-trivial = a failure was injected into an operation "
@@ -114,7 +114,7 @@ CHECKS = {
     "C20": dict(
         pkg="sessfs",
         level="exploration",
-        groups=[G("^TestC20_Client$", 1500, 12000)],
+        groups=[G("^TestC20_Client$", 1500, 80000)],
         rule="histories of 2..30 (thorough 60) file-system-level operations (Attach/Walk/Open/OpenDir/Create/Stat/WStat/Clunk/Remove/read) on entries obtained from "
              "p9p.CFileSys layered over a recording spy over SFileSys(mockfs); walk name lists include '.', '', 'x/..' forms, missing and partial targets, separators; "
              "10% injected file-system failures. Oracle: the spy shows exactly the corresponding session call on the entry's own fid; live entries and server fids "
@@ -127,7 +127,7 @@ CHECKS = {
     "C17": dict(
         pkg="readdir",
         level="exploration",
-        groups=[G("^TestC17_Readdir$", 3000, 25000), G("^TestC17_Session$", 1500, 10000), G("^TestC17_EndToEnd$", 300, 1500)],
+        groups=[G("^TestC17_Readdir$", 3000, 100000), G("^TestC17_Session$", 1500, 40000), G("^TestC17_EndToEnd$", 300, 6000)],
         rule="listing of 0..60 entries with name/uid lengths 0..300; the underlying iterator hands them out in generated batch sizes and ends with (nil,nil), (empty,nil) or io.EOF; "
              "read counts = largest encoded entry + {0,1,2,..120,..3000,70000}; 12% of reads are preceded by a read at a wrong offset. Three levels: p9p.NewReaddir directly, "
              "through SFileSys on a mock directory, and end to end CFileSys(CSession) <-> ServeConn with the negotiated msize forced to a generated value. Oracle: the reference "
@@ -140,7 +140,7 @@ CHECKS = {
         pkg="sessconc",
         race=True,
         level="exploration",
-        groups=[G("^TestC14_", 400, 4000, shrinktime="10s")],
+        groups=[G("^TestC14_", 400, 20000, shrinktime="10s")],
         rule="a sequential prefix binds/opens shared fids 0..3, then 2..5 goroutines run 3..8 operations each on one SFileSys(mockfs), sharing those fids on purpose "
              "(clunk/remove vs read/walk/stat/open/create on the same fid) while new fids are allocated disjointly per goroutine; 25% of operations have a file-system "
              "failure injected. In 75% of the cases every mock file-system call parks at a gate inside the session's critical section and a generated schedule decides which "
@@ -154,7 +154,7 @@ CHECKS = {
     "C06": dict(
         pkg="server",
         level="exploration",
-        groups=[G("^TestC06_Script$", 400, 3000)],
+        groups=[G("^TestC06_Script$", 400, 20000)],
         rule="scripts of 1..30 (thorough 50) steps against the real ServeConn with a scripted Handler and a raw reference-codec client: send (any of the 27 kinds except Tflush, "
              "tags from a 16-value universe incl. 0/0xFFFE/0xFFFF, unique marker embedded in the message), complete (a parked handler chosen by index returns a generated R message "
              "or an error, MessageRerror or plain), one third of the steps pipelined without waiting; 1/6 of the sends reuse the tag of a request whose handler is parked. "
@@ -169,7 +169,7 @@ CHECKS = {
     "C07": dict(
         pkg="server",
         level="exploration",
-        groups=[G("^TestC07_Script$", 600, 4000)],
+        groups=[G("^TestC07_Script$", 600, 25000)],
         rule="C06 machinery plus Tflush steps at every timing: target = a parked handler / a request whose handler has not been observed yet / an already answered tag / a never used tag; "
              "the target's handler is released right before or right after the Tflush is written (racing it) or only later (late completion); handlers that honour cancellation and "
              "handlers that ignore it; new requests deliberately reuse the tag of a flushed request whose handler is still running, and that handler then completes late. Oracle after the "
@@ -183,7 +183,7 @@ CHECKS = {
     "C11": dict(
         pkg="server",
         level="fault_enumeration",
-        groups=[G("^TestC11_Shutdown$", 300, 2500, shrinktime="10s")],
+        groups=[G("^TestC11_Shutdown$", 300, 30000, shrinktime="10s")],
         rule="real ServeConn(SSession(SFileSys(mockfs))) with a raw reference-codec client. A fixed prefix binds fids, then 1..6 requests of generated kinds "
              "(walk, clone, attach, open, opendir, create, read, write, stat, wstat, clunk, remove) are in flight: parked inside the mock file system holding their fid locks "
              "(returning when their context is cancelled, or only after Stop has been entered), or completing normally in a burst at that instant; optionally the client has "
@@ -201,7 +201,7 @@ CHECKS = {
         pkg="client",
         race=True,
         level="exploration",
-        groups=[G("^TestC05_Mux$", 300, 2000), G("^TestC05_Alloc$", 1000, 5000), G("^TestC05_Wrap$", 1, 3, shrinktime="1s", timeout="30m")],
+        groups=[G("^TestC05_Mux$", 300, 2000), G("^TestC05_Alloc$", 600, 800), G("^TestC05_Wrap$", 1, 3, shrinktime="1s", timeout="30m")],
         rule="real CSession against a scripted raw server that holds every request and answers in a generated order: steps call (any of the 11 Session methods, unique marker in the fid), "
              "reply (a held request chosen by index, correct reply carrying the marker or an Rerror), cancel (the caller abandons a pending call; its request stays unanswered or is answered late); "
              "a third of the steps are issued without waiting (concurrent callers, pipelined replies); buffered and rendezvous connections. The server checks on arrival that the tag is not NOTAG and not "
@@ -224,7 +224,7 @@ CHECKS = {
              "its caller an error; the process survives (a crash is recovered from the journal). After a stray or malformed frame the client may either carry on or give up on the session: both are accepted, "
              "but the final close must release every caller. Non-trivial = at least one call pending when the misbehaviour happens.",
         require_classes=dict(quick=["wrong_type_reply", "t_message_as_reply", "stray_unknown", "stray_notag", "stray_repeat", "malformed_badprefix", "malformed_oversize", "malformed_garbage",
-                                    "malformed_shortbody", "malformed_type106", "per_call_cancel", "fault_close", "fault_ioerr", "fault_ctxcancel", "fault_with_pending_calls", "call_after_failure"], thorough=[]),
+                                    "malformed_shortbody", "malformed_type106", "per_call_cancel", "fault_close", "fault_ioerr", "fault_neterr", "fault_localclose", "fault_ctxcancel", "late_reply_to_cancelled_call", "fault_with_pending_calls", "call_after_failure"], thorough=[]),
         assumptions=["'the connection fails' is modelled as both directions failing; a connection that fails only for writes while reads keep working is not asserted",
                      "connection deadlines are not honoured by the buffered in-memory connection, so the library's 30 s default deadline never masks a hang"],
     ),
@@ -261,7 +261,7 @@ CHECKS = {
         pkg="ramfsx",
         race=True,
         level="exploration",
-        groups=[G("^TestC18_Seq$", 800, 8000), G("^TestC18_Conc$", 50, 300, shrinktime="5s")],
+        groups=[G("^TestC18_Seq$", 800, 50000), G("^TestC18_Conc$", 50, 2000, shrinktime="5s")],
         rule="histories of up to 50 (thorough 100) operations by 1..3 SFileSys sessions on one fresh ramfs instance (verif hook): attach, walk (incl. '..', missing, non-normal names, "
              "through removed directories), clone, create file/dir, open, read, write, truncate (wstat length), stat, clunk, remove, list; offsets over the whole int64 range "
              "(dense at 0, len-1, len, len+1, 2^31, 2^63-1, -1, -2^63), counts 0..64 KiB; a third of the histories start with a canned prelude (parameters generated) that creates a stale handle "
@@ -278,7 +278,7 @@ CHECKS = {
     "C15": dict(
         pkg="ufsx",
         level="exploration",
-        groups=[G("^TestC15_Confine$", 400, 3000)],
+        groups=[G("^TestC15_Confine$", 400, 10000)],
         rule="temp layout top/{outside.txt, exportx, export-evil/..., other/etc, export/...}; histories of up to 30 (thorough 60) operations on SFileSys(ufs.NewServer(top/export)) from fids bound at "
              "depths 0..3: walk / create / rename (wstat name) with names from a hostile alphabet ('..', '.', '', '../x', '../outside.txt', '../export-evil/secret.txt', '/etc/passwd', 'a/../../x', "
              "'..\\x', '\\', NUL, 300-byte names, '../' x 40, chains of '..' longer than the depth followed by an outside target) in every name-carrying field, plus open/read/write/chmod/truncate/"
@@ -292,7 +292,7 @@ CHECKS = {
     "C19": dict(
         pkg="ufsx",
         level="exploration",
-        groups=[G("^TestC19_Mirror$", 300, 2500)],
+        groups=[G("^TestC19_Mirror$", 300, 12000)],
         rule="histories of up to 30 (thorough 60) operations on SFileSys(ufs.NewServer(export)) over a small tree: create file (permission bits x open mode), mkdir, walk (incl. '..'), open "
              "(OREAD/OWRITE/ORDWR/OEXEC with and without OTRUNC), read/write at offsets 0..60 and -1, chmod, truncate (0..4096, 2^63), rename (names from a small alphabet so that collisions and "
              "renames onto existing files/dirs occur), remove, stat and listing through freshly walked fids. Oracle: a twin directory driven by the equivalent direct OS call per operation "
